@@ -23,6 +23,14 @@ def run_case(arg):
     seed, i, tier = arg
     r = common.rng_for(seed, "C11", i)
     sc = ddcase.gen_scenario(r, hostile_p=0.6, allow_symlinks=False)
+    if r.random() < 0.15:
+        # a report made with --transform: the members of a group agree after the transform only, their sizes on disk
+        # differ (the dedupe commands then run without the length check)
+        sc["group"]["transform"] = "head100"
+        head = r.randbytes(100)
+        rt = sc["spec"]["roots"][0]
+        for k, extra in enumerate(r.sample([0, 20, 300, 800, 5000], r.randrange(2, 5))):
+            sc["spec"]["entries"].append({"t": "raw", "p": "%s/sized-%d" % (rt, k), "data": fsd(head + r.randbytes(extra)), "mtime": 900 + k})
     scratch = common.Scratch("C11")
     try:
         return _run(sc, r, scratch, i)
